@@ -17,7 +17,7 @@ from vlib.appworld import AppWorld
 from vlib.errors import HarnessError
 from vlib.ref import trxmodel, trxd
 
-F1, F2 = 935000, 890000
+F1, F2, F3, F4 = 935000, 890000, 936000, 937000
 F = 1000            # frame of the racing tick
 OPS = ["arr0", "arr1", "off", "on"]
 QUEUES = {"empty": [], "f": [0], "f,f+1": [0, 1], "f-1,f": [-1, 0]}
@@ -28,27 +28,44 @@ def bits_for(tag):
 
 
 def op_payload(op, seq):
+    """-> (socket kind, payload, transceiver index)"""
     if op == "arr0":
-        return ("data", trxd.enc_tx(0, 2, F, 3, bits_for(10 + seq)))
+        return ("data", trxd.enc_tx(0, 2, F, 3, bits_for(10 + seq)), 0)
     if op == "arr1":
-        return ("data", trxd.enc_tx(0, 3, F + 1, 4, bits_for(20 + seq)))
+        return ("data", trxd.enc_tx(0, 3, F + 1, 4, bits_for(20 + seq)), 0)
     if op == "off":
-        return ("ctrl", b"CMD POWEROFF\0")
+        return ("ctrl", b"CMD POWEROFF\0", 0)
     if op == "on":
-        return ("ctrl", b"CMD POWERON\0")
+        return ("ctrl", b"CMD POWERON\0", 0)
+    if op == "msoff":
+        return ("ctrl", b"CMD POWEROFF\0", 1)
+    if op == "mson":
+        return ("ctrl", b"CMD POWERON\0", 1)
+    if op == "msfh":
+        return ("ctrl", ("CMD SETFH 0 0 %d %d %d %d\0" % (F3, F3, F4, F4)).encode(), 1)
+    if op == "mstune":
+        return ("ctrl", ("CMD RXTUNE %d\0" % F1).encode(), 1)
     raise ValueError(op)
 
 
 PREFIX = [(0, "RXTUNE %d" % F2), (0, "TXTUNE %d" % F1), (1, "RXTUNE %d" % F1), (1, "TXTUNE %d" % F2),
           (1, "POWERON"), (0, "POWERON")]
+# recipient that hops elsewhere but still remembers an older fixed tuning to the sender's frequency
+PREFIX_MSHOP = [(0, "RXTUNE %d" % F2), (0, "TXTUNE %d" % F1), (1, "RXTUNE %d" % F1), (1, "TXTUNE %d" % F2),
+                (1, "SETFH 0 0 %d %d %d %d" % (F3, F3, F4, F4)), (1, "POWERON"), (0, "POWERON")]
+PREFIX_MSOFF = [(0, "RXTUNE %d" % F2), (0, "TXTUNE %d" % F1), (1, "RXTUNE %d" % F1), (1, "TXTUNE %d" % F2),
+                (0, "POWERON")]
+PREFIXES = {"std": PREFIX, "mshop": PREFIX_MSHOP, "msoff": PREFIX_MSOFF}
+DRAIN = [("c", 0, b"CMD POWERON\0"), ("t", F + 1), ("t", F + 2)]
 
 
 class Scenario:
-    def __init__(self, ops, queue, start_off=False):
+    def __init__(self, ops, queue, start_off=False, prefix="std"):
         self.ops = ops
         self.queue = queue
         self.start_off = start_off
-        self.name = "%s|q=%s%s" % ("+".join(ops), queue, "|off" if start_off else "")
+        self.prefix = prefix
+        self.name = "%s|q=%s%s%s" % ("+".join(ops), queue, "|off" if start_off else "", "" if prefix == "std" else "|" + prefix)
         self.defs = trxmodel.std_config()
 
     # -- reference: all sequential orders -----------------------------------------------
@@ -58,7 +75,7 @@ class Scenario:
         n = len(self.ops)
         for pos in range(n + 1):
             m = trxmodel.RefApp(self.defs, ind_period=0)
-            for i, c in PREFIX:
+            for i, c in PREFIXES[self.prefix]:
                 m.ctrl(i, ("CMD " + c + "\0").encode(), ("127.0.0.1", self.defs[i].ctrl + 100))
             for k, d in enumerate(QUEUES[self.queue]):
                 m.data(0, trxd.enc_tx(0, 1, F + d, 1, bits_for(k)))
@@ -75,16 +92,19 @@ class Scenario:
                     exps += e
                     stale += len(st)
                 else:
-                    kind, pl = op_payload(o, si)
+                    kind, pl, ti = op_payload(o, si)
                     si += 1
                     if kind == "ctrl":
-                        exps += m.ctrl(0, pl, ("127.0.0.1", 5801))
+                        exps += m.ctrl(ti, pl, ("127.0.0.1", self.defs[ti].ctrl + 100))
                     else:
-                        m.data(0, pl)
+                        m.data(ti, pl)
             phases = [(exps, stale)]
-            for f in (F + 1, F + 2):
-                e, st = self._mtick(m, f)
-                phases.append((e, len(st)))
+            for st_ in DRAIN:
+                if st_[0] == "c":
+                    phases.append((m.ctrl(st_[1], st_[2], ("127.0.0.1", self.defs[st_[1]].ctrl + 100)), 0))
+                else:
+                    e, st = self._mtick(m, st_[1])
+                    phases.append((e, len(st)))
             res.append((pos, phases, sum(len(t.queue) for t in m.trx)))
         return res
 
@@ -113,7 +133,7 @@ class Scenario:
             world.TrivialLock.lock_factory = None
         W.model = None
         app, fab = W.app, W.fab
-        for i, c in PREFIX:
+        for i, c in PREFIXES[self.prefix]:
             fab.inject(self.defs[i].ctrl, ("CMD " + c + "\0").encode(), ("127.0.0.1", self.defs[i].ctrl + 100))
             world.pump(app)
         for k, d in enumerate(QUEUES[self.queue]):
@@ -137,8 +157,8 @@ class Scenario:
 
         def sock_thread():
             for si, o in enumerate(self.ops):
-                kind, pl = op_payload(o, si)
-                port = self.defs[0].ctrl if kind == "ctrl" else self.defs[0].data
+                kind, pl, ti = op_payload(o, si)
+                port = self.defs[ti].ctrl if kind == "ctrl" else self.defs[ti].data
                 fab.inject(port, pl, ("127.0.0.1", port + 100))
                 world.pump(app)
 
@@ -150,8 +170,12 @@ class Scenario:
         out = fab.reset_out()
         recs = world.capture.reset()
         obs.append((out, sum(1 for lv, msg in recs if "Stale TRXD message" in msg)))
-        for f in (F + 1, F + 2):
-            app.clck_handler(f)
+        for st_ in DRAIN:
+            if st_[0] == "c":
+                fab.inject(self.defs[st_[1]].ctrl, st_[2], ("127.0.0.1", self.defs[st_[1]].ctrl + 100))
+                world.pump(app)
+            else:
+                app.clck_handler(st_[1])
             out = fab.reset_out()
             recs = world.capture.reset()
             obs.append((out, sum(1 for lv, msg in recs if "Stale TRXD message" in msg)))
@@ -196,6 +220,23 @@ def scenarios(tier):
     return basic, others
 
 
+def routing_scenarios(tier):
+    """C02 under schedules: power / hopping / tuning commands of the RECIPIENT racing the tick that
+    forwards a burst towards it (the recipient hops elsewhere but remembers an older fixed tuning
+    to the sender's frequency, or is tuned to it, or is off)."""
+    out = []
+    for q in ("f", "f,f+1"):
+        out.append(Scenario(["msoff"], q, prefix="mshop"))
+        out.append(Scenario(["msoff"], q))
+        out.append(Scenario(["mson"], q, prefix="msoff"))
+        out.append(Scenario(["msfh"], q))
+        out.append(Scenario(["msoff", "mson"], q, prefix="mshop"))
+        out.append(Scenario(["msfh", "msoff"], q))
+        out.append(Scenario(["mstune"], q, prefix="mshop"))
+        out.append(Scenario(["mson", "msoff"], q, prefix="msoff"))
+    return out
+
+
 _SC = {}
 _SHARED = {}
 
@@ -204,7 +245,7 @@ def _run_scenario(arg):
     """One work item = (scenario, preemption bound, first thread, slice k of n): the root
     execution (default schedule) is re-run by every slice (cheap) and its children - one per
     (point, alternative) - are dealt round-robin to the n slices, each explored to the bound."""
-    name, bound, first, k, n = arg
+    name, bound, first, k, n, prop = arg
     sc = _SC[name]
     lins = sc.linearizations()
     # warm-up + determinism: CPython 3.12 enables opcode events only from the second settrace call of a
@@ -228,9 +269,9 @@ def _run_scenario(arg):
         cls, info = sc.judge(obs, errors, dl, lins)
         if cls:
             if len(viol) < 3:
-                viol.append(("C03:sched:%s:%s" % (cls, sc.name),
+                viol.append(("%s:sched:%s:%s" % (prop, cls, sc.name),
                              {"sched": True, "scenario": sc.name, "ops": sc.ops, "queue": sc.queue,
-                              "start_off": sc.start_off, "first": first,
+                              "start_off": sc.start_off, "prefix": sc.prefix, "first": first,
                               "choices": {str(kk): v for kk, v in ch.items()}}, info))
         else:
             outcomes.add(info)
@@ -253,18 +294,22 @@ def _run_scenario(arg):
             "viol": viol, "outcomes": sorted(outcomes)}
 
 
-def run(ctx):
-    basic, others = scenarios(ctx.tier)
+def run(ctx, family="queue"):
+    if family == "queue":
+        basic, others = scenarios(ctx.tier)
+        b_basic, b_other = (2, 1) if ctx.quick else (3, 2)
+    else:
+        basic, others = [], routing_scenarios(ctx.tier)
+        b_basic, b_other = (1, 1) if ctx.quick else (2, 2)
     for s in basic + others:
         _SC[s.name] = s
-    b_basic, b_other = (2, 1) if ctx.quick else (3, 2)
     items = []
     for s in basic:
         n = 16 if b_basic >= 3 else 6
-        items += [(s.name, b_basic, first, k, n) for first in (0, 1) for k in range(n)]
+        items += [(s.name, b_basic, first, k, n, ctx.prop) for first in (0, 1) for k in range(n)]
     for s in others:
-        n = 4 if b_other >= 2 else 1
-        items += [(s.name, b_other, first, k, n) for first in (0, 1) for k in range(n)]
+        n = 16 if b_other >= 3 else (4 if b_other >= 2 else 1)
+        items += [(s.name, b_other, first, k, n, ctx.prop) for first in (0, 1) for k in range(n)]
     res = ctx.pmap(_run_scenario, items)
     c = ctx.cov
     nexec = 0
@@ -289,18 +334,18 @@ def run(ctx):
     c["schedule_runs"] = runs
     c["scenarios_with_more_than_one_outcome"] = sum(1 for p in runs if p["distinct_linearizations_observed"] > 1)
     c["traces_validated_against_impl"] = c.get("traces_validated_against_impl", 0) + nexec
-    ctx.sample({"schedule_scenario": basic[0].name, "threads": ["socket: main-loop dispatch", "clock: clck_handler(%d)" % F]})
+    ctx.sample({"schedule_scenario": (basic + others)[0].name, "threads": ["socket: main-loop dispatch", "clock: clck_handler(%d)" % F]})
     ctx.assumptions += ["two threads, one or two socket operations against one tick; preemption bound %d on the basic scenarios, %d on the others"
                         % (b_basic, b_other),
                         "scheduling points at shared attribute access / container iteration / lock operations (finer than CPython's own switch points)"]
 
 
 def replay(ctx, case):
-    sc = Scenario(case["ops"], case["queue"], case.get("start_off", False))
+    sc = Scenario(case["ops"], case["queue"], case.get("start_off", False), case.get("prefix", "std"))
     lins = sc.linearizations()
     ch = {int(k): v for k, v in case["choices"].items()}
     sc.execute({}, 0)       # warm-up (see _run_scenario)
     pts, obs, errors, dl = sc.execute(ch, case["first"])
     cls, info = sc.judge(obs, errors, dl, lins)
     if cls:
-        ctx.violation("C03:sched:%s:%s" % (cls, sc.name), case, info)
+        ctx.violation("%s:sched:%s:%s" % (ctx.prop, cls, sc.name), case, info)
